@@ -12,7 +12,14 @@ import cmath
 
 import numpy as np
 import numpy.typing as npt
-from scipy.special import sph_harm
+try:
+    from scipy.special import sph_harm
+except ImportError:  # removed in recent scipy releases in favour of sph_harm_y
+    from scipy.special import sph_harm_y
+
+    def sph_harm(m, n, theta, phi):
+        """scipy's former sph_harm(m, n, azimuth, polar) in terms of sph_harm_y(n, m, polar, azimuth)"""
+        return sph_harm_y(n, m, phi, theta)
 
 # pylint: disable=invalid-name
 # pylint: disable=line-too-long
